@@ -445,7 +445,8 @@ def decode_bytefield(enc, n, hl):
 # ---- fields whose length is only known from the value or from the message
 @harness(props=["C01", "C02", "C03", "C05", "C08"], strength="P",
          family=lambda t, s: [{"enc": e, "hl": h} for e in (None, "BCD_P") for h in (True, False)],
-         functions=[DecodeState.extract_atomic_value], covers=["decoded", "too-short", "empty"], assumes=["A-bitstruct"])
+         functions=[DecodeState.extract_atomic_value], covers=["decoded", "too-short", "empty"], assumes=["A-bitstruct"],
+         limits={"symbolic_raw_fields": True})
 def decode_bytefield_of_any_length(enc, hl):
     """extract_atomic_value, A_BYTEFIELD of k bytes, k symbolic and unbounded: DecodeError iff the PDU ends before the
     object, else exactly the k described bytes; the cursor advances by k"""
@@ -475,7 +476,7 @@ def decode_bytefield_of_any_length(enc, hl):
 @harness(props=["C01", "C02", "C03", "C04", "C08"], strength="P",
          family=lambda t, s: [{"enc": e, "hl": h} for e in (None, "BCD_UP") for h in (True, False)],
          functions=[EncodeState.emplace_atomic_value, EncodeState.emplace_bytes], covers=["accepted", "rejected"],
-         assumes=["A-bitstruct"])
+         assumes=["A-bitstruct"], limits={"symbolic_raw_fields": True})
 def encode_bytefield_of_any_length(enc, hl):
     """emplace_atomic_value, A_BYTEFIELD of k bytes, k symbolic and unbounded: accepted iff the value has exactly k
     bytes; whole view of the PDU and of the used-bit mask afterwards"""
